@@ -241,6 +241,14 @@ func directed() [][]HOp {
 		{load("main", 10), load("main", 20), {Kind: "compact", Branch: "main", Picks: []int{0, 1, 2}}, {Kind: "revert", Branch: "main", Commit: 2}, {Kind: "revert", Branch: "main", Commit: 3}, {Kind: "revert", Branch: "main", Commit: 0}},
 		// revert a load whose object was since deleted; revert a delete whose object was since restored
 		{load("main", 10), {Kind: "delete", Branch: "main", Picks: []int{0}}, {Kind: "revert", Branch: "main", Commit: 0}, {Kind: "revert", Branch: "main", Commit: 1}, {Kind: "revert", Branch: "main", Commit: 1}},
+		// the child deletes (or compacts away) an object that existed at the fork point and
+		// then restores it by reverting that commit: it net-deleted nothing, so a merge into
+		// a parent that still holds the object must not delete it (a refused merge that
+		// leaves the parent untouched is fine)
+		{load("main", 10), {Kind: "branch", Branch: "main", Other: "b1", Commit: 1}, {Kind: "delete", Branch: "b1", Picks: []int{0}}, {Kind: "revert", Branch: "b1", Commit: 1}, {Kind: "merge", Branch: "main", Other: "b1"}, load("main", 20)},
+		{load("main", 10), {Kind: "branch", Branch: "main", Other: "b1", Commit: 1}, {Kind: "delete", Branch: "b1", Picks: []int{0}}, {Kind: "revert", Branch: "b1", Commit: 1}, load("b1", 30), {Kind: "merge", Branch: "main", Other: "b1"}, load("main", 20)},
+		{load("main", 10), load("main", 40), {Kind: "branch", Branch: "main", Other: "b1", Commit: 2}, {Kind: "compact", Branch: "b1", Picks: []int{0, 1}}, {Kind: "revert", Branch: "b1", Commit: 2}, load("main", 50), {Kind: "merge", Branch: "main", Other: "b1"}},
+		{load("main", 10), {Kind: "branch", Branch: "main", Other: "b1", Commit: 1}, {Kind: "deletewhere", Branch: "b1", Pred: "id % 2 == 0"}, {Kind: "revert", Branch: "b1", Commit: 1}, {Kind: "revert", Branch: "b1", Commit: 2}, {Kind: "revert", Branch: "b1", Commit: 3}, {Kind: "merge", Branch: "main", Other: "b1"}},
 		// nested branches
 		{load("main", 10), {Kind: "branch", Branch: "main", Other: "b1", Commit: 1}, load("b1", 20), {Kind: "branch", Branch: "b1", Other: "b2", Commit: 2}, load("b2", 30), {Kind: "delete", Branch: "b2", Picks: []int{0}}, {Kind: "merge", Branch: "b1", Other: "b2"}, {Kind: "merge", Branch: "main", Other: "b1"}, {Kind: "merge", Branch: "main", Other: "b2"}},
 	}
